@@ -60,6 +60,15 @@ def magnitude_menu():
         add("O34.shape.far", f"environment.polygon=small-triangle-at({bx!r},{by!r})", lambda s, tri=tri: find(s, "obstacles", 34).__setitem__("shape", ["poly", copy.deepcopy(tri)]))
         add("O32.occ0.far", f"occupancy.polygon=small-quad-at({bx!r},{by!r})", lambda s, quad=quad: find(s, "obstacles", 32)["prediction"]["occ"][0].__setitem__("shape", ["poly", copy.deepcopy(quad)]))
         add("PP.goal0.far", f"goal.polygon=small-triangle-at({bx!r},{by!r})", lambda s, tri=tri: s["pps"][0]["goal"]["states"][0]["attrs"].__setitem__("position", ["poly", copy.deepcopy(tri)]))
+    # a 3-D lanelet (a ramp that starts at ground level): heights 0.0 (exactly), 0.5, 1.25 -- and one with -0.0
+    for zs in ([0.0, 0.5, 1.25], [1.5, 0.0, 0.0], [-0.0, 2.0, 0.0]):
+        def ramp(s, zs=zs):
+            l = find(s, "lanelets", 3)
+            l["left"] = [[0.0, 7.0, zs[0]], [10.25, 7.0, zs[1]], [20.5, 7.125, zs[2]]]
+            l["right"] = [[0.0, 3.5, zs[0]], [10.25, 3.5, zs[1]], [20.5, 3.625, zs[2]]]
+            l["center"] = [[0.0, 5.25, zs[0]], [10.25, 5.25, zs[1]], [20.5, 5.375, zs[2]]]
+            l.pop("adj_right", None); find(s, "lanelets", 1).pop("adj_left", None)
+        add("L3.3d", f"L3=3-D-ramp-heights={zs}", ramp)
     for v in (0.1, 1e-05, 2, 0.04, 1e-07, 12.5):
         add("dt", f"dt={v!r}", lambda s, v=v: s.__setitem__("dt", v))
     for v in (1e-07, -1e-05, 48, 179.99999999, 1e-16):
